@@ -164,3 +164,33 @@ func (id *Identity) SchemaSigner() (*schema.Signer, error) {
 	ss[id.Name] = s
 	return s, nil
 }
+
+// Whitespace styles for SignStyled: what follows the opening brace of the unsigned object before
+// "camliVersion". doc/schema/blob-magic.md: the ideal blob starts with {"camliVersion" but "some JSON
+// serialization libraries will format things differently, so additional whitespace should be tolerated".
+var leadStyles = []string{"", " ", "\n  ", "\n\t", strings.Repeat(" \n", 45)}
+
+// NumLeadStyles is the number of styles SignStyled knows (0 = perkeep's own serializer).
+var NumLeadStyles = len(leadStyles)
+
+// SignStyled is MustSign for an object written by a foreign serializer that puts whitespace between the
+// opening brace and "camliVersion" (style 1..NumLeadStyles-1).
+func (id *Identity) SignStyled(b *schema.Builder, sigTime time.Time, style int) *test.Blob {
+	if style <= 0 || style >= len(leadStyles) {
+		return id.MustSign(b, sigTime)
+	}
+	b.SetSigner(id.Ref)
+	unsigned, err := b.JSON()
+	if err != nil {
+		panic(fmt.Sprintf("vsign: %v", err))
+	}
+	const head = `{"camliVersion"`
+	if !strings.HasPrefix(unsigned, head) {
+		panic("vsign: the builder's JSON does not start with " + head)
+	}
+	signed, err := id.SignJSON("{"+leadStyles[style]+unsigned[1:], sigTime)
+	if err != nil {
+		panic(fmt.Sprintf("vsign: %v", err))
+	}
+	return &test.Blob{Contents: signed}
+}
